@@ -814,13 +814,6 @@ def ga_compare(ctx, pt, outs):
         ctx.disagree(f"calibration.{pt.mech}.sampler-sigma", p, pt.meas["stored"], pt.meas["sigma"],
                      note="randomise uses a sigma different from the calibrated one")
         ok = False
-    if pt.mech == "GaussianAnalytic":
-        # the objective contains e^eps (1 + erf(-x)): an absolute erf error of 1 ulp is amplified by e^eps / delta
-        amp = math.exp(min(p["epsilon"], 700.0)) * 2.3e-16 / p["delta"]
-        if amp > 1e-12:
-            if not close(model, pt.meas["sigma"], 1e-9, 1e-300):
-                ctx.boundary_skipped += 1
-            return ok
     if not close(model, pt.meas["sigma"], 1e-9, 1e-300):
         ctx.disagree(f"calibration.{pt.mech}.sigma", p, model, pt.meas["sigma"])
         ok = False
@@ -1036,6 +1029,19 @@ def erf_correspondence(ctx):
             ctx.disagree("carrier.erf", x, v, math.erf(x))
     ctx.count("erf_points", len(xs))
     ctx.note(f"erf model vs math.erf: worst absolute difference {worst:.3g} over {len(xs)} points")
+    ys = [0.0, 1.0, -1.0, 0.999999, 1.000001, 5.0, 26.0, 27.0, 28.0, -6.0, -7.0]
+    ys += [r.uniform(-7, 27) for _ in range(ctx.budget(400, 4000))] + [r.normal() for _ in range(ctx.budget(200, 2000))]
+    outs = leanio.run_driver("Continuous", [f"erfc {B(y)}" for y in ys])
+    worst = 0.0
+    for y, o in zip(ys, outs):
+        v = b2f(int(ok_vals(o)[0]))
+        t = math.erfc(y)
+        e = abs(v - t) / t if t > 1e-300 else abs(v - t)
+        worst = max(worst, e)
+        if e > 1e-13:
+            ctx.disagree("carrier.erfc", y, v, t)
+    ctx.count("erfc_points", len(ys))
+    ctx.note(f"erfc model vs math.erfc: worst relative difference {worst:.3g} over {len(ys)} points")
 
 
 def run_points(ctx, pts):
@@ -1047,6 +1053,10 @@ def run_points(ctx, pts):
             MECHS[pt.mech][1](pt)
         except seams.ScriptExhausted as e:
             ctx.disagree(f"calibration.{pt.mech}.measure", pt.params, "scripted randomness exhausted", str(e))
+            continue
+        except (ArithmeticError, ValueError, TypeError, RecursionError) as e:
+            # admissible parameters: the implementation must calibrate, not raise
+            ctx.disagree(f"calibration.{pt.mech}.raises", pt.params, "a calibration", f"{type(e).__name__}: {e}")
             continue
         good.append(pt)
     # model on doubles
